@@ -73,6 +73,10 @@ def formula_scope(name):
         return formula_scope(base)[::int(step)]
     if name == 'nary':
         return fm.ctls_nary()
+    if name == 'ctx':
+        return [(q, g) for g in fm.ltl_context() for q in 'AE']
+    if name == 'ctxq':
+        return fm.ctls_context_q()
     if name == 'sib':
         return fm.ctls_siblings()
     if name == 'sib/2':
@@ -199,7 +203,8 @@ def run(ctx):
                   (3, 'Qg-tt', 7), (3, 'Qg-k2', 211), (4, 'Qg-tt', 40009),
                   (2, 'Qg-k3', 1), (3, 'Qg-k3', 211), (2, 'nest3', 1), (3, 'nest3', 101),
                   (1, 'sib', 1), (2, 'sib', 2), (3, 'sib', 199), (2, 'rep', 4), (3, 'rep', 997),
-                  (2, 'nary', 2), (3, 'nary', 199)]
+                  (2, 'nary', 2), (3, 'nary', 199),
+                  (1, 'ctx', 1), (2, 'ctx/11', 4), (1, 'ctxq', 1), (2, 'ctxq/5', 4), (3, 'ctxq/97', 1801)]
         ctx.scopes = ['S(1)+S(2) x Qg-k2 (8648 formulas)', 'S(1)+S(2) x nest2', 'S(2) x bool2',
                       'every 16th of S(3) x Qg-k1', 'every 64th of S(3) x nest2',
                       'every 8009th of S(4) x Qg-k1', 'every 7th of S(3) x Qg-tt (two nested temporal operators)',
@@ -208,13 +213,15 @@ def run(ctx):
                       'S(2) and every 101st of S(3) x nest3 (224 formulas with quantifier nesting 3)',
                       'S(1), every 2nd of S(2), every 199th of S(3) x sib (1344 formulas quantifying one non-CTL path formula twice as siblings)',
                       'every 4th of S(2), every 997th of S(3) x rep (repeated temporal/quantified subformulas under both polarities)',
-                      'every 2nd of S(2), every 199th of S(3) x nary (1736 formulas: A/E over 3- and 4-ary and/or of temporal operands)']
+                      'every 2nd of S(2), every 199th of S(3) x nary (1736 formulas: A/E over 3- and 4-ary and/or of temporal operands)',
+                      'S(1) x ctx (79680 formulas Q g, g a context of <= 2 operators over {p,q,SLOT} with SLOT at least twice x every 1-operator path formula), every 4th of S(2) x every 11th of ctx; S(1), every 4th of S(2) x every 5th, every 1801st of S(3) x every 97th of ctxq (23240 formulas Q1 ctx[Q2 h]: a repeated QUANTIFIED subformula)']
     else:
         scopes = [(1, 'Qg-k2', 1), (2, 'Qg-k1', 1), (2, 'Qg-k2', 48), (1, 'nest2', 1),
                   (2, 'nest2', 24), (2, 'bool2', 12), (3, 'Qg-k1', 401), (4, 'Qg-k1', 240011),
                   (3, 'Qg-tt', 701), (2, 'Qg-k3', 24), (3, 'Qg-k3', 3001), (2, 'nest3', 12), (3, 'nest3', 2003),
                   (2, 'sib/2', 36), (3, 'sib/2', 5501), (2, 'rep', 72), (3, 'rep', 11003),
-                  (2, 'nary/8', 48), (3, 'nary/8', 7001)]
+                  (2, 'nary/8', 48), (3, 'nary/8', 7001),
+                  (1, 'ctx/8', 1), (1, 'ctxq/4', 1), (2, 'ctxq/41', 24)]
         ctx.scopes = ['S(1) x Qg-k2', 'S(2) x Qg-k1', 'every 48th of S(2) x Qg-k2', 'S(1) x nest2',
                       'every 24th of S(2) x nest2', 'every 12th of S(2) x bool2',
                       'every 401st of S(3) and every 240011th of S(4) x Qg-k1',
@@ -223,7 +230,8 @@ def run(ctx):
                       'every 12th of S(2) and every 2003rd of S(3) x nest3 (quantifier nesting 3)',
                       'every 36th of S(2), every 5501st of S(3) x every 2nd of sib (1344 formulas quantifying one non-CTL path formula twice as siblings)',
                       'every 72nd of S(2), every 11003rd of S(3) x rep (repeated subformulas under both polarities)',
-                      'every 48th of S(2), every 7001st of S(3) x every 8th of nary (1736 formulas: A/E over 3- and 4-ary and/or of temporal operands)']
+                      'every 48th of S(2), every 7001st of S(3) x every 8th of nary (1736 formulas: A/E over 3- and 4-ary and/or of temporal operands)',
+                      'S(1) x every 8th of ctx (79680 formulas Q g, g a context of <= 2 operators over {p,q,SLOT} with SLOT at least twice x every 1-operator path formula); S(1) x every 4th and every 24th of S(2) x every 41st of ctxq (23240 formulas Q1 ctx[Q2 h]: a repeated QUANTIFIED subformula)']
     ctx.exhaustive = True
     ctx.assumptions = ['reference semantics vp/ref.py (R-STAR) is the trusted base',
                        'atoms are p,q: exactness under atom names that collide with the '
